@@ -147,8 +147,9 @@ class LNode(object):
 
 class Gen(object):
     """all random choices come from rng (derived from ctx['seed'])"""
-    def __init__(self, rng, palette, allow_slg=True, allow_sib=True):
+    def __init__(self, rng, palette, allow_slg=True, allow_sib=True, nested_partial=None):
         self.rng, self.palette, self.allow_slg, self.allow_sib = rng, tuple(palette), allow_slg, allow_sib
+        self.nested_partial = nested_partial       # partial_credit of nested ListGraders (None: random)
         self.gid = 0
         self.aid = 0
         self.salt = rng.randrange(10**6)
@@ -174,6 +175,8 @@ class Gen(object):
         force = force or {}
         ordered = force.get('ordered', r.random() < 0.5)
         partial = force.get('partial', r.random() < 0.7)
+        if depth > 0 and self.nested_partial is not None:
+            partial = self.nested_partial
         grouped = force.get('grouped', m >= 2 and depth < 2 and r.random() < (0.5 if depth == 0 else 0.3))
         grouping = force.get('grouping')
         if grouping is not None:
@@ -746,6 +749,48 @@ def correct_inputs(rng, node, answers, m):
     return None if any(x is None for x in xs) else xs
 
 
+def any_expect(rng, sub, answer):
+    """a text that SOME alternative of `answer` (validated form) expects"""
+    alt = answer[rng.randrange(len(answer))]
+    exp = alt['expect'][rng.randrange(len(alt['expect']))]
+    if sub.kind == 'slg':
+        return ','.join(any_expect(rng, Item(0, 'table', False, 0, ()), a) for a in exp)
+    return exp
+
+
+def mixed_inputs(rng, node, answers, m, cross=0.35):
+    """a submission assembled from the author's expected texts ACROSS rows, alternative lists and alternatives: each
+    box / group mostly follows one answer list (dealt in random order when unordered) but with probability `cross`
+    takes the expected text of another row or list at the same nesting position -- groups that are correct for one
+    row, partly correct for several, or correct for none"""
+    gm = node.group_map() or [[i] for i in range(m)]
+    base = answers[rng.randrange(len(answers))]
+    if len(base) != len(gm):
+        return None
+    order = list(range(len(gm)))
+    if not node.ordered:
+        rng.shuffle(order)
+    xs = [None] * m
+    for s, g in enumerate(gm):
+        alist = base if rng.random() >= cross else answers[rng.randrange(len(answers))]
+        col = order[s]
+        if not node.sublist and rng.random() < cross:
+            col = rng.randrange(len(alist))
+        a = alist[col]
+        sub = node.sub_at(s)
+        if isinstance(sub, LNode):
+            inner = mixed_inputs(rng, sub, a, len(g), cross)
+            if inner is None:
+                return None
+            for i, x in zip(g, inner):
+                xs[i] = x
+        else:
+            if len(g) != 1:
+                return None
+            xs[g[0]] = any_expect(rng, sub, a)
+    return xs
+
+
 def gen_inputs(rng, case, m, with_raising):
     has_slg = any(it.kind == 'slg' for it in items_of(case.top))
     toks = case.tokens
@@ -757,8 +802,10 @@ def gen_inputs(rng, case, m, with_raising):
         xs = correct_inputs(rng, case.top, case.top.grader.config['answers'], m)
         if xs is not None and rng.random() < 0.4:    # ... with one box spoiled
             xs[rng.randrange(m)] = rng.choice(pool)
+    elif mode < 0.45:                                # assembled from expected texts across rows / lists
+        xs = mixed_inputs(rng, case.top, case.top.grader.config['answers'], m)
     if xs is None:
-        xs = [rng.choice(pool[:4]) if mode < 0.45 else rng.choice(pool) for _ in range(m)]   # < 0.45: many duplicates
+        xs = [rng.choice(pool[:4]) if mode < 0.6 else rng.choice(pool) for _ in range(m)]   # < 0.6: many duplicates
     # two groups of one level whose boxes differ but read the same when concatenated / re-split, or are duplicates
     levels = grouped_levels(case.top, list(range(m))) if len(xs) == m else []
     levels = [(nd, bx) for nd, bx in levels if len(nd.group_map()) >= 2]
@@ -804,9 +851,9 @@ def history_of(rng, case, m):
     return seq
 
 
-def make_case(rng, palette_name, m=None, force=None, n_alts=None, allow_slg=True):
+def make_case(rng, palette_name, m=None, force=None, n_alts=None, allow_slg=True, nested_partial=None):
     palette = {'exact': EXACT, 'ties': TIES, 'rounded': ROUNDED}[palette_name]
-    gen = Gen(rng, palette, allow_slg=allow_slg)
+    gen = Gen(rng, palette, allow_slg=allow_slg, nested_partial=nested_partial)
     m = m or rng.choice([2, 2, 3, 3, 4, 4, 5, 6, 6, 7, 8])
     top = gen.lnode(m, 0, force)
     n_alts = n_alts or rng.choice([1, 1, 2, 3])
@@ -962,7 +1009,7 @@ def run(ctx):
     corpus(runner, rng)
 
     # 1. random trees x random inputs (exact / tie-heavy / rounded credit tables)
-    n_cases = 2500 if thorough else (700 if big else 320)
+    n_cases = 2500 if thorough else (700 if big else 250)
     for i in range(n_cases):
         pal = ('exact', 'ties', 'rounded')[i % 3]
         case, m = make_case(rng, pal)
@@ -982,10 +1029,26 @@ def run(ctx):
         m = rng.choice([4, 6, 8] if grouped and not ordered else [2, 3, 4, 5, 6])
         case, m = make_case(rng, ('exact', 'ties', 'rounded')[i % 3] if i % 5 else 'exact', m=m,
                             force={'ordered': ordered, 'grouped': grouped, 'partial': partial},
-                            n_alts=rng.choice([1, 1, 2]))
+                            n_alts=rng.choice([1, 1, 2]), nested_partial=bool(i & 8))
         for xs in history_of(rng, case, m):
             runner.one(case, xs, fresh_reference=True)
         runner.bump('history_sequences')
+        case.rec.unwrap()
+
+    # 1c. grouped graders over nested ListGraders with partial_credit False / True: what the parent optimises must be
+    #     the nested grader's REPORTED (post-zeroing) credit.  Tie-heavy credit tables, overlapping answer rows,
+    #     submissions assembled from the expected texts across rows; every result judged by the exhaustive oracle
+    n_nest = 120 if thorough else (48 if big else 30)
+    for i in range(n_nest):
+        ordered = (i % 4 == 3)
+        case, m = make_case(rng, ('ties', 'ties', 'exact')[i % 3], m=rng.choice([4, 4, 6, 6, 8]),
+                            force={'ordered': ordered, 'grouped': True, 'partial': bool(i & 4)},
+                            n_alts=rng.choice([1, 1, 2]), allow_slg=False, nested_partial=(i % 5 == 4))
+        answers = case.top.grader.config['answers']
+        for k in range(6):
+            xs = mixed_inputs(rng, case.top, answers, m, cross=(0.2, 0.35, 0.5)[k % 3]) or gen_inputs(rng, case, m, False)
+            runner.one(case, xs)
+        runner.bump('nested_zeroing_cases')
         case.rec.unwrap()
 
     # 2. all permutations of an input list (n <= 4 quick, n <= 6 thorough), unordered and ordered, flat
